@@ -1,9 +1,11 @@
 PROPERTY = 'C10'
 # one unit per (hash kind, thread-kind pair, unroll, rehash recursion depth); built on demand through unit_override
-BASE = dict(wrapper='w_chm.cpp', mode='lcs', unroll=1, ptratomics=True, lvalpath=True, ptrcmp=True, prune=True, full_unroll=8,
+BASE = dict(wrapper='w_chm.cpp', mode='lcs', unroll=1, ptratomics=True, lvalpath=True, ptrcmp=True, prune=True, fallthrough=True, full_unroll=8,
             unrec={'rehash_bucket': 1},                 # lazy-rehash recursion followed 1 level deep (parent bucket must be rehashed or embedded)
             cut=['12init_bucketsE', '10get_bucketE'])    # sparse model of the bucket segments, see w_chm.cpp / NOTES.md
-UNITS = {'chm': dict(BASE, cxxflags=['-DHASHK=0'], threads={'vp_thr_ins': ['a', 'b']})}
+UNITS = {'chm': dict(BASE, cxxflags=['-DHASHK=0'], threads={'vp_thr_ins': ['a', 'b']}),
+         # no cuts: the real get_bucket / enable_segment / init_buckets, sequential (validates the contracts of the sparse bucket model)
+         'seg': dict(wrapper='w_chm.cpp', mode='seq', cxxflags=['-DHASHK=0'], ptratomics=True, lvalpath=True, ptrcmp=True, prune=True)}
 # loops with a large concrete trip count (everything else: --unwind 8, unwinding assertions on)
 # real-code loops of the sequential helpers (pre-state program): 4 iterations are ample for chains of <= 3 nodes and uncontended
 # locks (unwinding assertions are on: a too small bound is reported as inconclusive, never as a pass); cbmc cannot fold
@@ -48,6 +50,9 @@ def H(name, ta, tb, scen, tc=None, hashk=0, rounds=1, unroll=1, depth=1, timeout
     h.update(kw)
     return h
 HARNESSES = [
+  dict(name='seg_contract', unit='seg', harness='h_seg.c', scenarios=[{'GROW2': 0}, {'GROW2': 1}], cbmc=['--unwind', '300', '--object-bits', '10'], timeout=600,
+       desc='real get_bucket/enable_segment/init_buckets: for every bucket number <= mask (symbolic) the bucket is the right slot of the right block, constructed unlocked with the rehash flag (contracts used by the sparse bucket model of the thread harnesses)',
+       bounds={'bucket number': 'all 0..255 (GROW2: 0..511)', 'segments': 'embedded + first block (+ segment 8)'}),
   H('find_era', 'find', 'era', [S([I(2), C(2)], [2], [2])], desc='find(const_accessor,k) || erase(k): accessor holder vs erase of the same element'),
   H('ins_ins', 'ins', 'ins', [S([I(3)], [2], [2], KX0=3)], desc='insert(accessor,k) || insert(accessor,k), bucket of k still to be rehashed from its (empty) parent: exactly one true'),
   H('era_era', 'era', 'era', [S([I(2), C(2)], [2], [2])], desc='erase(k) || erase(k): exactly one true, node freed once'),
